@@ -230,7 +230,12 @@ func spawnPMOnce(c *run.Ctx, job, name string, mayRetry bool) bool {
 		for _, rep := range strings.Split(string(b), "WARNING: DATA RACE")[1:] {
 			rep = strings.Split(rep, "==================")[0]
 			cls, mine := raceClass(rep)
-			if mine {
+			if mine && onHarnessObject(rep) {
+				// the racing memory belongs to a scripted remote (reached through the manager's
+				// unsynchronised peer map): a follow-up of the reports on the map itself
+				c.Stat("pm_race_reports_on_harness_objects_ignored", 1)
+				c.Seen("pm_race_classes_on_harness_objects_ignored", cls)
+			} else if mine {
 				fmt.Fprintf(os.Stderr, "==================\nWARNING: DATA RACE%s==================\n", rep)
 				c.Stat("pm_race_reports_in_package_network", 1)
 			} else {
@@ -241,6 +246,20 @@ func spawnPMOnce(c *run.Ctx, job, name string, mayRetry bool) bool {
 	}
 	_ = os.RemoveAll(sub)
 	return true
+}
+
+var anyFrameRe = regexp.MustCompile(`(?m)^  (\S+)\(\)`)
+
+// onHarnessObject: the innermost frame of one of the two accesses is harness code.
+func onHarnessObject(rep string) bool {
+	secs := regexp.MustCompile(`\n(?:Previous )?(?:[Aa]tomic )?(?:[Ww]rite|[Rr]ead) (?:at|by) `).Split("\n"+rep, -1)
+	for _, s := range secs[1:] {
+		s = strings.Split(s, "\nGoroutine ")[0]
+		if m := anyFrameRe.FindStringSubmatch(s); m != nil && strings.HasPrefix(m[1], "main.") {
+			return true
+		}
+	}
+	return false
 }
 
 var frameRe = regexp.MustCompile(`(?m)^  (github\.com/LemoFoundationLtd/lemochain-core/\S+)\(\)`)
